@@ -16,7 +16,7 @@ func init() {
 	register(&Rule{ID: "VD15", Min: 6, Run: rulePlanKeys,
 		Doc: "plan-title-key-agreement: in the plan validator and in the plan builder every map insert/lookup keyed by a task title or an `after` entry uses the input string verbatim (no trimming or other transformation), so both sides resolve titles identically"})
 	register(&Rule{ID: "OU4", Min: 8, Run: ruleOU4,
-		Doc: "text-flow-whitelist: the Title/Body fields of every create/title/body event built by a command derive from the input (JSON fields, --title/--body flags, stdin) through loads, stores, phis, parameters, update-map entries under constant keys, the identity resolver and byte/string conversion only; strings.TrimSpace is allowed only on a title taken from the --title flag or from the \"title\" update key (documented); replay stores payload titles/bodies unchanged (legacy untitled items excepted) and the JSON show output loads them unchanged"})
+		Doc: "text-flow-whitelist: the Title/Body fields of every create/title/body event built by a command derive from the input (JSON fields, --title/--body flags, stdin) through loads, stores, phis, parameters, update-map entries under constant keys, the identity resolver and byte/string conversion only; strings.TrimSpace is allowed only on a title taken from the --title flag or from the \"title\" update key (documented); the bytes handed to the JSON decoder of an input parser are the bytes read from stdin (no rewriting pre-pass); replay stores payload titles/bodies unchanged (legacy untitled items excepted) and the JSON show output loads them unchanged"})
 }
 
 type textFlow struct {
@@ -25,6 +25,7 @@ type textFlow struct {
 	problems []string
 	seen     map[ssa.Value]bool
 	steps    int
+	sawStdin bool // the walk reached io.ReadAll(os.Stdin)
 }
 
 func (t *textFlow) bad(format string, a ...any) {
@@ -182,6 +183,9 @@ func (t *textFlow) walkCall(cl *ssa.Call, idx int, d int) {
 		t.bad("strings.TrimSpace applied to the %s at %s (only a --title flag or the \"title\" update key may be trimmed)", strings.ToLower(t.field), c.Pos(cl.Pos()))
 		return
 	case "io.ReadAll":
+		if len(cl.Call.Args) == 1 && isGlobalLoad(cl.Call.Args[0], "Stdin") {
+			t.sawStdin = true
+		}
 		if len(cl.Call.Args) == 1 && !isGlobalLoad(cl.Call.Args[0], "Stdin") {
 			t.bad("the input stream is read through a wrapper (%s) at %s instead of os.Stdin itself: text can be cut or altered before it is recorded", c.canon(cl.Call.Args[0]), c.Pos(cl.Pos()))
 		}
@@ -261,6 +265,37 @@ func ruleOU4(c *Ctx) {
 	}
 	if n == 0 {
 		c.bad("<module>", "text-emissions", "-", "no title/body carrying emissions found")
+	}
+	// the bytes handed to the JSON decoder of the input parsers are the bytes read from stdin: whatever rewrites them
+	// first (a lenient pre-pass, a normaliser) rewrites the titles and bodies inside them as well
+	nDec := 0
+	for _, fn := range c.Fns {
+		if !c.InModule(fn) || fn.Blocks == nil || c.isReplayOrCompact(fn) {
+			continue
+		}
+		k := 0
+		for _, call := range callsIn(fn) {
+			name := calleeFullName(call.Common())
+			if name != "bytes.NewReader" && name != "encoding/json.Unmarshal" && name != "strings.NewReader" && name != "bytes.NewBuffer" && name != "bytes.NewBufferString" {
+				continue
+			}
+			if len(call.Common().Args) == 0 {
+				continue
+			}
+			tf := &textFlow{c: c, field: "input", seen: map[ssa.Value]bool{}}
+			tf.walk(call.Common().Args[0], 0)
+			if !tf.sawStdin {
+				continue // not fed from stdin (log lines, embedded documents)
+			}
+			k++
+			nDec++
+			c.check(len(tf.problems) == 0, c.Name(fn), fmt.Sprintf("decoder-input %s#%d", name, k), c.Pos(call.Pos()),
+				fmt.Sprintf("the decoder reads the bytes of stdin, untransformed (%d copy steps)", tf.steps),
+				"the JSON document read from stdin is rewritten before it is decoded - "+strings.Join(uniq(tf.problems), "; ")+" - so the titles and bodies inside it are rewritten too")
+		}
+	}
+	if nDec == 0 {
+		c.bad("<module>", "decoder-input", "-", "no JSON decoder fed from stdin found (input parser gone?)")
 	}
 	// replay: Task.Title / Task.Body stores are payload field loads (or the legacy migration's results)
 	if re := c.anchor("replayEvents"); re != nil {
